@@ -280,6 +280,103 @@ def h_two_trials(sym, F=2, stop_first=True):
     sym.goal("end")
 
 
+class _SeedDraws:
+    """numpy as seen by simulated_tabular_backend.py: everything is numpy, except that random.randint -- the per-trial seed
+    of the table -- is a solver variable"""
+
+    def __init__(self, sym):
+        import numpy
+        self._np = numpy
+        self._sym = sym
+        self.draws = []
+        self.random = self
+
+    def randint(self, low, high=None, *a, **k):
+        if high is None:
+            low, high = 0, low
+        v = low + self._sym.choice("seed_draw%d" % len(self.draws), high - low)
+        self.draws.append(v)
+        return v
+
+    def __getattr__(self, name):
+        return getattr(self._np, name)
+
+
+def h_tabular_seed(sym, ckpt=True, S=3, F=3):
+    """the real BlackboxTabular (concrete table: 2 configurations x S seeds x F levels, values encode configuration, seed and
+    level), backend built with seed=None: every draw of a per-trial seed is a solver variable.  Two trials; trial 0 is paused
+    at a symbolic level and resumed: every result of every run must carry the row of (configuration, the seed drawn for the
+    trial's FIRST run, level)."""
+    import numpy as np
+    import pandas as pd
+    from syne_tune.blackbox_repository.blackbox_tabular import BlackboxTabular
+    import syne_tune.blackbox_repository.simulated_tabular_backend as STB
+    from syne_tune.backend.simulator_backend.simulator_backend import SimulatorConfig
+    from syne_tune.config_space import choice, randint
+    from crosshair.core import NoTracing
+    _install_clock(sym, False, controlled=True)
+    with NoTracing():
+        ev = np.zeros((2, S, F, 2))
+        for c in range(2):
+            for sd in range(S):
+                for e in range(1, F + 1):
+                    ev[c, sd, e - 1, 0] = 1000.0 * sd + 100.0 * c + e
+                    ev[c, sd, e - 1, 1] = e * (10.0 + sd) + c
+        bb = BlackboxTabular(hyperparameters=pd.DataFrame({"c": [0, 1], "d": [7, 7]}), configuration_space={"c": choice([0, 1]), "d": choice([7])},
+                             fidelity_space={"epoch": randint(1, F)}, objectives_evaluations=ev, objectives_names=["loss", "et"])
+    draws = _SeedDraws(sym)
+    saved = STB.np
+    STB.np = draws
+    try:
+        be = STB.UserBlackboxBackend(blackbox=bb, elapsed_time_attr="et", max_resource_attr="epochs", seed=None, support_checkpointing=ckpt,
+                                     simulator_config=SimulatorConfig(delay_on_trial_result=0.125, delay_complete_after_final_report=0.125,
+                                                                      delay_complete_after_stop=0.125, delay_start=0.125, delay_stop=0.125))
+        be.set_path(results_root=os.environ["SYNETUNE_FOLDER"], tuner_name="c10e")
+        # the pandas / numpy lookup itself runs untraced on concrete arguments (it is not the subject here)
+        _lookup = be.config_objectives
+
+        def lookup(config, seed):
+            with NoTracing():
+                return _lookup(dict(config), seed=seed)
+        be.config_objectives = lookup
+        tk = be.time_keeper
+        tk.start_of_time()
+        pause_at = 1 + sym.choice("pause_at", F - 1)
+        be.start_trial({"c": 0, "d": 7, "epochs": pause_at})
+        be.start_trial({"c": 1, "d": 7, "epochs": F})
+        seed_of = {}
+        seen = {0: [], 1: []}
+
+        def poll(ids):
+            tk.advance(200.0)
+            st, res = be.fetch_status_results(ids)
+            for tid, r in res:
+                lv = int(r["epoch"])
+                sd = int((r["loss"] - 100.0 * tid - lv) // 1000)        # the seed whose table row this value is
+                sym.check(r["loss"] == 1000.0 * sd + 100.0 * tid + lv and 0 <= sd < S, "C10.metric-value", "trial %d level %d: %s is not a table value" % (tid, lv, r["loss"]))
+                if tid not in seed_of:
+                    seed_of[tid] = sd
+                sym.check(sd == seed_of[tid], "C10.seed-changed", "trial %d level %d carries the row of seed %d, its earlier results those of seed %d" % (tid, lv, sd, seed_of[tid]))
+                seen[tid].append(lv)
+                last[tid] = r
+        last = {}
+        poll([0, 1])
+        sym.check(seen[0] == list(range(1, pause_at + 1)), "C10.levels-not-consecutive", "trial 0 run 1: %s" % seen[0])
+        be.pause_trial(0, result=last[0])
+        be.resume_trial(0, new_config={"c": 0, "d": 7, "epochs": F})
+        n1 = len(seen[0])
+        poll([0, 1])
+        exp2 = list(range(pause_at + 1, F + 1)) if ckpt else list(range(1, F + 1))
+        sym.check(seen[0][n1:] == exp2, "C10.levels-not-consecutive", "trial 0 after the resume: %s, expected %s" % (seen[0][n1:], exp2))
+        sym.check(seen[1] == list(range(1, F + 1)), "C10.levels-not-consecutive", "trial 1: %s" % seen[1])
+        if len(draws.draws) >= 2 and draws.draws[0] == 0:
+            sym.goal("first-seed-zero")
+        sym.goal("resumed-results")
+        sym.goal("end")
+    finally:
+        STB.np = saved
+
+
 def h_three_trials(sym, F=3, prop="C10", sym_trials=(1, 2)):
     """three trials on three workers, two of them with SYMBOLIC elapsed-time columns (every interleaving of their events in
     the simulator's event heap); the third is stopped after its first result while events of all three are queued.  One
@@ -342,6 +439,7 @@ ASSUME = [
     "stub clock: time.time as seen by time_keeper returns arbitrary non-decreasing instants (increment symbolic in [0,5] or fixed 0.25 s); datetime/timedelta replaced by constants",
     "documented monotonicity repair of the elapsed-time column: each value at least 0.01 above its predecessor (recomputed independently in the oracle)",
     "exact real arithmetic: time stamps compared with ==",
+    "C10.e: the table lookup of the real BlackboxTabular (pandas / numpy) runs on concrete values; symbolic are the seed draws (np.random.randint as seen by simulated_tabular_backend.py) and the pause level",
     "C10.c: real clock fully under harness control (moves only between backend calls, by symbolic amounts in [0,1/4]); concrete table and delays",
 ]
 
@@ -364,6 +462,10 @@ def obligations(tier):
                   bounds=dict(trials=1, fidelities=3, outside_time="symbolic in [0,5] per call"), goals=("resumed-results", "end"), budget_s=1500))
     obs.append(Ob("C10.c[outside-time,F=2]", "props.c10:h_outside_time", dict(F=2), bounds=dict(trials=2, fidelities=2, rounds=2, real_time="symbolic in [0,1/4] between any two backend calls (14 gaps)", sleeps="12 s", table="concrete, 10 s per level"),
                   goals=("result", "end"), budget_s=900, stubs=["time.time in time_keeper under harness control", "datetime/timedelta constants"]))
+    for ck in (True, False):
+        obs.append(Ob("C10.e[tabular,seed=None,ckpt=%s]" % ck, "props.c10:h_tabular_seed", dict(ckpt=ck, S=3, F=3),
+                      bounds=dict(table="real BlackboxTabular, 2 configurations x 3 seeds x 3 levels, concrete", seed_draws="symbolic (every np.random.randint call)", pause_level="symbolic"),
+                      goals=("first-seed-zero", "resumed-results", "end"), budget_s=900, stubs=["np.random.randint in simulated_tabular_backend.py", "time.time in time_keeper"]))
     obs.append(heap_obligation("C10", "C10.b"))
     if not quick:
         obs.append(heap_obligation("C10", "C10.b", sym_trials=(1, 2), may_be_incomplete=True))
